@@ -3199,8 +3199,14 @@ where
             }
         }
 
-        // Keep the populated index for subsequent incremental insertions.
-        self.spatial_index = grid_index;
+        // Keep the populated index for subsequent incremental insertions - unless its cells are
+        // smaller than the duplicate tolerance those insertions compare against (a dedup policy
+        // with a tolerance below 1e-10 sizes the grid by that tolerance): a vertex within
+        // tolerance could then lie outside the 3^D neighbourhood that is searched. Dropping the
+        // grid lets `ensure_spatial_index_seeded` rebuild it with the right cell size.
+        let duplicate_tolerance: K::Scalar =
+            <K::Scalar as NumCast>::from(1e-10_f64).unwrap_or_else(K::Scalar::default_tolerance);
+        self.spatial_index = grid_index.filter(|grid| grid.cell_size() >= duplicate_tolerance);
 
         Ok(())
     }
